@@ -203,7 +203,7 @@ MIRROR_FUNCTIONS = {
 
 @rule(
     "R10d",
-    ["C10", "C03", "C02"],
+    ["C10", "C03", "C02", "C12"],
     """SIDE SYMMETRY: binary operations treat their two inputs by mirrored code - adjacent statement pairs (and the two arms of
     an if/else on `broadcast_side == 'left'`) that are identical up to swapping left <-> right. In the functions where
     such pairs were confirmed exact mirror images, a pair with identical syntactic skeleton whose text differs from its
